@@ -6,7 +6,7 @@
            ready and cache for equality and every stream item against the latest value (an item must show it; no
            item is allowed only if the latest value is the one reported last).  `-` when the script is not a
            history a bus can produce or a reply is malformed
-   class:  owner_release_buffered (C32's known class, inherited through the PropertiesChanged stream) | -   *)
+   class:  - (C32's release class, once inherited through the PropertiesChanged stream, was repaired by 902c9069) *)
 From Coq Require Import List NArith Bool.
 Import ListNotations.
 From ZV Require Import Base.Bytes C32.Model C32.Spec C32.Parse C32.Run C31.Model C31.Spec.
@@ -126,7 +126,7 @@ Definition run_case (line : bytes) : outp :=
               let '(ml, x) := cmodel_line pc mode_y bs in
               {| o_model := ml;
                  o_spec := if lbeq ml (B "NOCALL") then dash else cspec_line pc mode_y bs;
-                 o_class := if w_lost (cw x) then B "owner_release_buffered" else dash |}
+                 o_class := dash |}
             else bad_case
         | _, _, _, _ => bad_case
         end
